@@ -16,7 +16,7 @@ def make_case(H, rng, name, X, y, cid, kw, init, n_to, mix8=None, chain=None, sc
         unit, wa, wb = 2, 2, 0
         Q = [[] for _ in range(N)]
     P = (X if axis == 0 else X.T).astype(int).tolist()
-    obj = cls(**kw)
+    obj = core.mk(cls, **kw)
     # scaled lattice: the code sees X*scale, y*scale (genuine rounding); tables are converted back to lattice units
     rec = H.Recorder(obj, name, X.astype(float) * scale, None if y is None else np.asarray(y, float) * scale, unit / (scale * scale), True, fps=True)
     ok = rec.fit(n_to, warm=False, with_y=needs_y, init=init)
